@@ -43,7 +43,7 @@ def report_suppressions(message):
     if record:
         if isinstance(message, str) and "://" in message:
             # the report is a dictionary, which has no URL step: remove the user-info here
-            message = re.sub(r":\/\/(.*?)\@", "://<redacted>", message)
+            message = re.sub(r":\/\/[^/@\s\"']*\@", "://<redacted>", message)
         # report the message as a field of a JSON object so that it is sanitized again:
         # inside a line of text its sensitive values would be written as they are
         ml.get_logger().warning(
@@ -140,7 +140,7 @@ class GoogleLogger(object):
         else:
             if isinstance(message, str) and "://" in message:
                 # credentials in the user-info part of a URL, as the stream formatter does
-                message = re.sub(r":\/\/(.*?)\@", "://<redacted>", message)
+                message = re.sub(r":\/\/[^/@\s\"']*\@", "://<redacted>", message)
             structured_log["message"] = message
             return log_it(structured_log)
 
